@@ -31,9 +31,10 @@
 (***************************************************************************)
 EXTENDS Resolve
 
-CONSTANT PrefixSep
+CONSTANTS PrefixSep,      \* TRUE: startswith(namespace + '::') (repaired), FALSE: startswith(namespace) (1.4.0: D3)
+          ClassRefExact   \* TRUE: a by-class reference that only finds a grouped namesake is 'not found' (repaired: D21)
 
-ClassOrder == <<"a", "b", "c", "d", "trainx", "ge", "f", "pat", "cy1", "cy2", "z", "w", "bsub", "both", "both2">>
+ClassOrder == <<"a", "b", "c", "d", "trainx", "ge", "f", "pat", "cy1", "cy2", "z", "w", "bsub", "both", "both2", "gb", "mi">>
 Sep == <<":", ":">>
 
 (*************************** _process_config *******************************)
@@ -99,7 +100,13 @@ IExpand(reg, entry, inp) ==
 IWireRef(names, entry, inp, x) ==
   LET q == IQualify(INsTxt(entry.name), x)
       r == IFindTxt(IEndsWith, TRUE, FALSE, q, names) IN
-  IF "err" \in DOMAIN r THEN (IF inp.kind = "opt" THEN [absent |-> TRUE] ELSE [err |-> "input"]) ELSE r
+  LET missing == IF inp.kind = "opt" THEN [absent |-> TRUE] ELSE [err |-> "input"] IN
+  IF "err" \in DOMAIN r THEN missing
+  \* a reference by class keeps the class's own qualified slug as the key (tasks[input_task_name]).  Repaired: a lookup
+  \* that only finds a namesake in another group counts as not found; the pinned 1.4.0 code (ClassRefExact = FALSE)
+  \* then raised a bare KeyError whatever the declaration said - also for an optional input
+  ELSE IF ByClass(inp) THEN (IF q \in names THEN [txt |-> q] ELSE IF ClassRefExact THEN missing ELSE [err |-> "input"])
+  ELSE r
 IWired(reg, names, entry) ==
   UNION {LET inp == Inputs[entry.cls][i]
              xs == IExpand(reg, entry, inp) IN
